@@ -20,10 +20,83 @@ LOCAL_OPS = ("send", "claim", "fail", "fee", "tick", "fwd", "fwdany")
 
 
 # --------------------------------------------------------------------------- schedules
+def gen_guided(rng):
+    """Forwarded payments driven to the claim stage in sync mode, then asynchronous persistence at the
+    forwarding node while claims, deliveries and (out-of-order) completions interleave. This is what
+    reaches blocked RAA updates (RAA blockers), preimage updates jumping the blocked queue, holding-cell
+    claims and post-completion action release."""
+    relaxed = rng.chance(1, 4)
+    deferred = rng.chance(1, 6)
+    ops = []
+    npay = rng.range(1, 3)
+    for _ in range(npay):
+        a, b = rng.choice([(0, 2), (2, 0), (0, 2), (0, 1), (2, 1)])
+        ops.append("send %d %d %d" % (a, b, rng.choice([1000000, 3000000, 20000000])))
+    if deferred:
+        for n in range(3):
+            ops.append("flush %d 0" % n)
+    for _ in range(rng.range(10, 26)):
+        ops.append("dany 0")
+        if rng.chance(1, 3):
+            ops.append("fwdany 0")
+        if deferred and rng.chance(1, 2):
+            ops.append("flush %d 0" % rng.below(3))
+    ops.append("fwdany 0")
+    ops.append("fwdany 0")
+    if rng.chance(9, 10):
+        ops.append("pmode 1 async")
+    for n in (0, 2):
+        if rng.chance(1, 3):
+            ops.append("pmode %d async" % n)
+    if rng.chance(1, 2):
+        # the downstream channel's updates complete while the upstream preimage update stays in flight: the
+        # forwarding node's next revoke_and_ack update on the downstream channel is held by an RAA blocker
+        dst = rng.choice([2, 0])
+        down = 1 if dst == 2 else 0  # index of the downstream channel at node 1
+        ops += ["claim %d 0" % dst, "deliver %d 1" % dst, "deliver %d 1" % dst, "complete 1 %d 0" % down,
+                "deliver 1 %d" % dst, "deliver 1 %d" % dst, "deliver %d 1" % dst, "deliver %d 1" % dst]
+    for _ in range(rng.range(25, 70)):
+        r = rng.below(100)
+        if r < 16:
+            ops.append("claim %d %d" % (rng.choice([2, 0, 1, 2]), rng.below(2)))
+        elif r < 50:
+            ops.append("dany %d" % rng.below(6))
+        elif r < 68:
+            ops.append("complete 1 %d %d" % (rng.below(2), rng.below(3)))
+        elif r < 76:
+            ops.append("cany %d" % rng.below(8))
+        elif r < 82:
+            a, b = rng.choice([(0, 2), (2, 0), (1, 2), (1, 0), (0, 1), (2, 1)])
+            ops.append("send %d %d %d" % (a, b, rng.choice([1000000, 3000000, 250000])))
+        elif r < 88:
+            ops.append("fwdany %d" % rng.below(3))
+        elif r < 90:
+            a, b = rng.choice([(0, 1), (1, 2)])
+            ops.append("disc %d %d" % (a, b))
+        elif r < 93:
+            a, b = rng.choice([(0, 1), (1, 2)])
+            ops.append("reconn %d %d" % (a, b))
+        elif r < 95:
+            ops.append("fee %d %d" % (rng.below(3), rng.choice([40, 250])))
+        elif r < 97:
+            ops.append("fail %d %d" % (rng.below(3), rng.below(2)))
+        elif deferred:
+            ops.append("flush %d %d" % (rng.below(3), rng.below(3)))
+        elif relaxed:
+            ops.append(rng.choice(["pmode 1 sync", "pnext 1 2"]))
+        else:
+            ops.append("dany %d" % rng.below(6))
+    ops.append("settle")
+    head = "steady %s %s" % ("relaxed" if relaxed else "strict", "def" if deferred else "imm")
+    return head + " ; " + " ; ".join(ops), {"kind": "guided", "relaxed": relaxed, "deferred": deferred, "n_ops": len(ops)}
+
+
 def gen_schedule(rng, kind=None):
     """One schedule line for h_monupd. Returns (line, meta)."""
     if kind is None:
-        kind = "open" if rng.chance(1, 6) else "steady"
+        if rng.chance(2, 5):
+            return gen_guided(rng)
+        kind = "open" if rng.chance(1, 5) else "steady"
     relaxed = rng.chance(1, 4)
     # TestChainMonitor::update_channel needs the monitor to be registered, which in deferred mode happens only at
     # the first flush: channel opening is explored in immediate mode only
